@@ -198,18 +198,22 @@ def gen_cases(tier, seed):
         if tier != "quick":
             yield dict(kind="order", site=site, dev=2, call=None)
     pairs = [(0, 1)] if tier == "quick" else [(0, 1), (0, 2), (1, 2)]
-    isites = ["tsf_fit", "tsf_proba", "tsfr_predict", "ens_fit"]
-    if tier != "quick":
-        isites += ["stsf_fit", "rise_fit", "boss_predict"]
-    for site in isites:
-        nch = 4 if site in ("stsf_fit", "rise_fit", "boss_predict") else 1
-        if tier != "quick":
-            nch *= 4
+    small = ["tsf_fit", "tsf_proba", "tsfr_predict", "ens_fit"]      # 60-75 points per task
+    big = ["stsf_fit", "rise_fit", "boss_predict"]                   # 1 000-6 000 points per task
+    for site in small:
+        nch = 1 if tier == "quick" else 8
         for pr in pairs:
             for first in (0, 1):
                 for ch in range(nch):
                     yield dict(kind="interleave", site=site, pair=list(pr), first=first,
                                bound=1 if tier == "quick" else 2, chunk=[ch, nch])
+    if tier != "quick":
+        for site in big:  # every single-preemption schedule, in 16 slices
+            for pr in pairs[:2]:
+                for first in (0, 1):
+                    for ch in range(16):
+                        yield dict(kind="interleave", site=site, pair=list(pr), first=first,
+                                   bound=1, chunk=[ch, 16])
 
 
 # ------------------------------------------------------------------------------ helpers
@@ -638,7 +642,7 @@ def _interleave(case, res):
     first = case["first"]
     idx, nch = case.get("chunk", [0, 1])
     _, counts = il.counts(mk)
-    cap = 1500 if case["bound"] == 1 else 2500
+    cap = 1500 if case["bound"] == 1 else 4000
     total = 0
     for (kind, _f, sw), results in il.explore_slice(mk, first, counts, bound=case["bound"],
                                                     idx=idx, nchunks=nch, cap=cap):
